@@ -15,7 +15,10 @@ def claim(pid, level, text, note, technique, ref):
     CLAIMS[pid] = dict(level=level, text=text, note=note, technique=technique, ref=ref)
 
 
+EXTRA = {}
 exec(open(os.path.join(VERIF, 'tools', 'claims.py')).read())
+for _pid, _c in CLAIMS.items():
+    _c['text'] = _c['text'] + EXTRA.get(_pid, '') + EXTRA.get('ALL', '')
 
 checks = []
 for p in props:
